@@ -155,6 +155,7 @@ static Step gen_op(Rng& r, const Profile& P, int client, int nh, const Plan& pla
     if (u < 0.25) s.len = -1;       // same length as the vector has now, other values
     else if (u < 0.40) s.len = -2;  // the length of the neighbouring vector parameter
     else if (u < 0.48) s.len = -3;  // what is stored now with the sign of every zero flipped
+    else if (u < 0.60 && s.op == OP_SET_VEC) s.len = -4;  // every vector parameter of the solution to one common new length
   }
   s.val = g_wild[r.uni(g_num_wild)];
   if (s.op == OP_SET) {
@@ -167,8 +168,8 @@ static Step gen_op(Rng& r, const Profile& P, int client, int nh, const Plan& pla
   }
   if (s.op == OP_EVAL || s.op == OP_EVAL_SUP || s.op == OP_EVAL_UNSUP) {
     int u = r.uni(20);  // mostly interior points; sometimes far outside the unit box, or a negative abscissa
-    if (u == 0) s.x[0] = 2000.0;
-    if (u == 1) s.x[0] = -3.0;
+    if (u <= 1) s.x[0] = 2000.0;
+    if (u == 2) s.x[0] = -3.0;
   }
   if (s.op == OP_MIRROR) s.b = r.uni(10) + 10 * r.uni(4);
   if (s.op == OP_SELECT_UNKNOWN) {
